@@ -187,6 +187,7 @@ class Equiv:
         t = strip_all(term)
         if self.run is not None:
             t = rewrite(t, inline_new_module_vars(self.run))
+            t = rewrite(t, expand_star_literals)
             t = rewrite(t, canon_repo_calls(self.run))
         for rw in self.rewrites:
             t = rewrite(t, rw)
@@ -509,6 +510,26 @@ def path_refine(tree, guards=()):
                 m[strip(a[2])] = NONE
     return subst(tree, m) if m else tree
 
+
+
+def expand_star_literals(t):
+    """f(*(a, b), c) == f(a, b, c);  f(**{'k': v}) == f(k=v)."""
+    if head(t) == "call" and (any(head(a) == "star" and head(strip(a[1])) in ("tuple", "list") for a in t[2])
+                              or any(k == "**" and head(strip(v)) == "dict" and all(is_const(strip(kk)) and isinstance(strip(kk)[2], str) for kk, _ in strip(v)[1]) for k, v in t[3])):
+        args = []
+        for a in t[2]:
+            if head(a) == "star" and head(strip(a[1])) in ("tuple", "list"):
+                args.extend(strip(a[1])[1])
+            else:
+                args.append(a)
+        kws = []
+        for k, v in t[3]:
+            if k == "**" and head(strip(v)) == "dict" and all(is_const(strip(kk)) and isinstance(strip(kk)[2], str) for kk, _ in strip(v)[1]):
+                kws.extend((strip(kk)[2], vv) for kk, vv in strip(v)[1])
+            else:
+                kws.append((k, v))
+        return ("call", t[1], tuple(args), tuple(kws))
+    return t
 
 
 # --------------------------------------------------------------------------- module-level constants
